@@ -25,6 +25,14 @@ Theorem c20_reads_are_parameters : forall t b argv i u tk,
 Proof. exact reads_are_parameters. Qed.
 Print Assumptions c20_reads_are_parameters.
 
+(* with exactly the mandatory or exactly all documented parameters, every one of them is read (none is skipped) *)
+Theorem c20_documented_parameters_all_read : forall t b argv i k,
+  In t gen_tools -> In b (t_blocks t) -> block_option argv b = Ret (Some i) ->
+  (num_args argv i = nmand b \/ num_args argv i = List.length (b_parms b)) ->
+  1 <= k <= num_args argv i -> In (k, i + k) (block_reads b i (num_args argv i)).
+Proof. exact documented_parameters_all_read. Qed.
+Print Assumptions c20_documented_parameters_all_read.
+
 (* no tool, on no command line, reads argv[argc] or beyond *)
 Theorem c20_no_read_outside_argv : forall t argv, In t gen_tools -> r_final (run_tool t argv) <> FCrash.
 Proof. exact no_read_outside_argv. Qed.
